@@ -283,6 +283,16 @@ def _is_row_norm_of(e: ast.AST, b2: str, defs) -> bool:
 
 def _threshold_ok(f, thr, lhs, b2, defs, rtols, atols):
     thr = _resolve_name_expr(thr, defs)
+    # clamp(x, min=a) / x.clamp(min=a) / clamp_min(x, a) with no upper bound is the element-wise max(x, a)
+    if isinstance(thr, ast.Call) and ast.unparse(thr.func).split(".")[-1] in ("clamp", "clip", "clamp_min"):
+        last = ast.unparse(thr.func).split(".")[-1]
+        is_fn = isinstance(thr.func, ast.Attribute) and isinstance(thr.func.value, ast.Name) and thr.func.value.id == "torch"
+        ops_ = list(thr.args) if is_fn else [thr.func.value] + list(thr.args)
+        kw_ = {k.arg: k.value for k in thr.keywords}
+        lo_ = kw_.get("min", ops_[1] if len(ops_) > 1 else None)
+        hi_ = kw_.get("max", ops_[2] if len(ops_) > 2 and last != "clamp_min" else None)
+        if ops_ and lo_ is not None and (hi_ is None or (isinstance(hi_, ast.Constant) and hi_.value is None)):
+            thr = ast.Call(func=ast.Attribute(value=ast.Name(id="torch", ctx=ast.Load()), attr="max", ctx=ast.Load()), args=[ops_[0], lo_], keywords=[])
     if not (isinstance(thr, ast.Call) and ast.unparse(thr.func).split(".")[-1] in ("max", "maximum") and len(thr.args) == 2):
         return False, "threshold `%s` is not a two-argument max" % norm_stmt(thr, 60)
     got_r = got_a = False
@@ -322,13 +332,16 @@ def _check_batchdims(model: Model, B: RuleResult):
 
     def guards(node) -> frozenset:
         g = set()
+        from ..model import cond_atoms
         for i, inbody in enclosing_ifs(node, f.node):
-            t = i.test
-            if isinstance(t, ast.Compare) and isinstance(t.left, ast.Name) and isinstance(t.ops[0], ast.IsNot) \
-                    and isinstance(t.comparators[0], ast.Constant) and t.comparators[0].value is None and inbody:
-                g.add(t.left.id)
-            else:
-                g.add("?" + norm_stmt(t, 40))
+            # `if E is not None and M is not None` guards with both; the atoms are read with their polarity
+            for text, pol in cond_atoms([(ast.unparse(i.test), inbody)]):
+                t = ast.parse(text, mode="eval").body
+                if isinstance(t, ast.Compare) and isinstance(t.left, ast.Name) and isinstance(t.ops[0], ast.Is) \
+                        and isinstance(t.comparators[0], ast.Constant) and t.comparators[0].value is None and not pol:
+                    g.add(t.left.id)
+                else:
+                    g.add("?" + ("" if pol else "not ") + text[:40])
         return frozenset(g)
 
     for n in own_nodes(f.node):
